@@ -48,6 +48,7 @@ def tlc(module, cfg, workdir, workers=4, env=None, timeout=1800, coverage=False,
     meta = os.path.join(workdir, "tlc_%s_%d_%d" % (module, os.getpid(), int(time.time() * 1e6) % 10**9))
     os.makedirs(meta, exist_ok=True)
     java_opts = "-Xss1g -Dtlc2.tool.queue.IStateQueue=StateDeque" if workers == 1 else "-Xss1g"
+    java_opts += " -Djava.io.tmpdir=" + meta      # TLC unpacks its standard modules into tmpdir; removed with meta
     cmd = ["java", "-XX:+UseParallelGC", "-Xmx" + heap, "-cp", TLA_JAR, "tlc2.TLC",
            "-workers", str(workers), "-metadir", meta, "-cleanup", "-noGenerateSpecTE"]
     if coverage:
